@@ -39,6 +39,9 @@ MODELLED RATHER THAN VERIFIED (outside every theorem; evidence is the differenti
 * theorems that hold by construction of the model (`smartcore_predict_def`, `record_predict_def`) are marked
   as such; for them the evidence that the *code* behaves so is the differential run.
 -/
+import Compass.Gen.Decisions
+import Compass.Proofs.Num
+import Compass.Model.Interp
 import Compass.Proofs.Interp
 
 namespace Compass
@@ -1103,6 +1106,46 @@ example : ∀ pt s, (∃ v, Interpolator.interpolate
       subst this
       exact ⟨7, by decide +kernel⟩
   exact validated_interpolation_never_panics _ hc pt s
+
+end C14
+end Compass
+
+namespace Compass
+namespace C14
+open Src
+
+/-! ### Source decision ties
+
+The relational operators at the named comparison sites of the Rust source are re-extracted on every run
+by `tools/gen_model.py` into `Compass/Gen/Decisions.lean` (`Src.<site> : Src.Rel`).  Each theorem below
+says that the hand-written model decides at that site by exactly the operator the source has there
+(`Rel.nat` / `Rel.int` / `Rel.num` interpret the extracted operator; an unrecognised line is `none`).  A
+source change that turns `<` into `<=`, `>` into `>=`, … at a site changes the generated constant and this
+proof obligation stops checking, whether or not a generated case lands on the tie. -/
+
+theorem src_interp_round_half {α : Type} [Field α] [LinearOrder α] [IsStrictOrderedRing α] [Lit α] [LawfulLit α] (x f : List α) (p : α) :
+    Interp.nearest1 x f p =
+      match Interp.position (fun v => Interp.eqv v p) x with
+      | some i => Interp.idx f i
+      | none => (Interp.cellOf x p).bind fun c =>
+          if interp_round_half.num c.2 (Lit.lit 1 2 : α) = some true then Interp.idx f c.1
+          else Interp.idx f (c.1 + 1) := by
+  unfold Interp.nearest1
+  cases Interp.position (fun v => Interp.eqv v p) x <;> simp [interp_round_half, Rel.num]
+
+theorem src_find_nearest_step {α : Type} [Field α] [LinearOrder α] [IsStrictOrderedRing α] [Lit α] [LawfulLit α] (arr : List α) (t : α) (fuel low high : Nat) :
+    Interp.bsearch arr t (fuel + 1) low high =
+      if find_nearest_loop.nat low high = some true then
+        match arr[low + (high - low) / 2]? with
+        | none => .panic .index
+        | some v =>
+          if find_nearest_mid.num v t = some true then Interp.bsearch arr t fuel low (low + (high - low) / 2)
+          else Interp.bsearch arr t fuel (low + (high - low) / 2 + 1) high
+      else .ok low := by
+  by_cases h : low < high
+  · simp only [Interp.bsearch, h, find_nearest_loop, find_nearest_mid, Rel.nat, Rel.num]
+    cases arr[low + (high - low) / 2]? <;> simp
+  · simp [Interp.bsearch, h, find_nearest_loop, Rel.nat]
 
 end C14
 end Compass
